@@ -1,12 +1,195 @@
 import GridVerif.Model.Proto
 import GridVerif.Model.Elem
+import GridVerif.Model.OneD
+import GridVerif.Gen.OneDFormulas
 
 namespace GridVerif.Driver.C01
-open GridVerif.Proto
+open GridVerif.Proto GridVerif.OneD
+
+def showErr : Err → String
+  | .valueError => "value-error"
+  | .typeError => "type-error"
+  | .runtimeError => "runtime-error"
+
+def showGrid : Except Err (Grid1D Float) → String
+  | .error e => showErr e
+  | .ok g =>
+    "ok " ++ sFloats g.points ++ " " ++ sFloats g.weights ++ " " ++ sFloat g.lo ++ " " ++
+      (match g.hi with | some h => sFloat h | none => "inf")
+
+def fnan (x : Float) : Bool := x != x
+
+/-- `P W` (two vectors) at the end of a line: the output of the NumPy/SciPy Gauss call. -/
+def pGauss (toks : List String) : Option (Nat → List Float × List Float) := do
+  let (p, r) ← pVec pFloat toks
+  let (w, r) ← pVec pFloat r
+  if r ≠ [] then none else pure (fun _ => (p, w))
+
+/-- Constructors callable as `quadrature(npoints)` (default extra parameters as in the source). -/
+def baseRule (gauss : Nat → List Float × List Float) :
+    String → Option (Int → Except Err (Grid1D Float))
+  | "GaussLaguerre" => some fun n => GaussLaguerre.make fnan gauss n 0.0
+  | "GaussLegendre" => some (GaussLegendre.make gauss)
+  | "GaussChebyshev" => some (GaussChebyshev.make gauss)
+  | "UniformInteger" => some UniformInteger.make
+  | "GaussChebyshevType2" => some (GaussChebyshevType2.make gauss)
+  | "GaussChebyshevLobatto" => some GaussChebyshevLobatto.make
+  | "Trapezoidal" => some Trapezoidal.make
+  | "RectangleRuleSineEndPoints" => some RectangleRuleSineEndPoints.make
+  | "TanhSinh" => some fun n => TanhSinh.make n Gen.OneD.TanhSinh.hDefault
+  | "Simpson" => some Simpson.make
+  | "MidPoint" => some MidPoint.make
+  | "ClenshawCurtis" => some ClenshawCurtis.make
+  | "FejerFirst" => some FejerFirst.make
+  | "FejerSecond" => some FejerSecond.make
+  | "TrefethenCC" => some fun n => TrefethenCC.make n 9
+  | "TrefethenGC2" => some fun n => TrefethenGC2.make gauss n 9
+  | "TrefethenStripCC" => some fun n => TrefethenStripCC.make n (11.0 / 10.0)
+  | "TrefethenStripGC2" => some fun n => TrefethenStripGC2.make gauss n (11.0 / 10.0)
+  | "ExpSinh" => some fun n => ExpSinh.make n Gen.OneD.ExpSinh.hDefault
+  | "LogExpSinh" => some fun n => LogExpSinh.make n Gen.OneD.LogExpSinh.hDefault
+  | "ExpExp" => some fun n => ExpExp.make n Gen.OneD.ExpExp.hDefault
+  | "SingleTanh" => some fun n => SingleTanh.make n Gen.OneD.SingleTanh.hDefault
+  | "SingleExp" => some fun n => SingleExp.make n Gen.OneD.SingleExp.hDefault
+  | "SingleArcSinhExp" => some fun n => SingleArcSinhExp.make n Gen.OneD.SingleArcSinhExp.hDefault
+  | _ => none
+
+def noArg : String → Option (Int → Except Err (Grid1D Float))
+  | "UniformInteger" => some UniformInteger.make
+  | "GaussChebyshevLobatto" => some GaussChebyshevLobatto.make
+  | "Trapezoidal" => some Trapezoidal.make
+  | "RectangleRuleSineEndPoints" => some RectangleRuleSineEndPoints.make
+  | "Simpson" => some Simpson.make
+  | "MidPoint" => some MidPoint.make
+  | "ClenshawCurtis" => some ClenshawCurtis.make
+  | "FejerFirst" => some FejerFirst.make
+  | "FejerSecond" => some FejerSecond.make
+  | _ => none
+
+def stepArg : String → Option (Int → Float → Except Err (Grid1D Float))
+  | "TanhSinh" => some TanhSinh.make
+  | "ExpSinh" => some ExpSinh.make
+  | "LogExpSinh" => some LogExpSinh.make
+  | "ExpExp" => some ExpExp.make
+  | "SingleTanh" => some SingleTanh.make
+  | "SingleExp" => some SingleExp.make
+  | "SingleArcSinhExp" => some SingleArcSinhExp.make
+  | "TrefethenStripCC" => some TrefethenStripCC.make
+  | _ => none
+
+def gaussArg : String → Option ((Nat → List Float × List Float) → Int → Except Err (Grid1D Float))
+  | "GaussLegendre" => some GaussLegendre.make
+  | "GaussChebyshev" => some GaussChebyshev.make
+  | "GaussChebyshevType2" => some GaussChebyshevType2.make
+  | _ => none
+
+open Gen.OneD in
+def fn2 : String → Option (Float → Float → Float)
+  | "TanhSinh.node" => some TanhSinh.node | "TanhSinh.weight" => some TanhSinh.weight
+  | "ExpSinh.node" => some ExpSinh.node | "ExpSinh.weight" => some ExpSinh.weight
+  | "LogExpSinh.node" => some LogExpSinh.node | "LogExpSinh.weight" => some LogExpSinh.weight
+  | "ExpExp.node" => some ExpExp.node | "ExpExp.weight" => some ExpExp.weight
+  | "SingleTanh.node" => some SingleTanh.node | "SingleTanh.weight" => some SingleTanh.weight
+  | "SingleExp.node" => some SingleExp.node | "SingleExp.weight" => some SingleExp.weight
+  | "SingleArcSinhExp.node" => some SingleArcSinhExp.node
+  | "SingleArcSinhExp.weight" => some SingleArcSinhExp.weight
+  | "gstrip" => some gstrip
+  | "dergstrip" => some OneD.dergstrip
+  | _ => none
+
+open Gen.OneD in
+def fn1 : String → Option (Float → Float)
+  | "g2" => some g2 | "derg2" => some derg2 | "g3" => some g3 | "derg3" => some derg3
+  | _ => none
+
+open Gen.OneD in
+def nat1 : String → Option (Nat → Nat)
+  | "ClenshawCurtis.jmed" => some ClenshawCurtis.jmed
+  | "ClenshawCurtis.jLen" => some ClenshawCurtis.jLen
+  | "ClenshawCurtis.jOff" => some ClenshawCurtis.jOff
+  | "ClenshawCurtis.bjLen" => some ClenshawCurtis.bjLen
+  | "ClenshawCurtis.patchIdx" => some ClenshawCurtis.patchIdx
+  | "ClenshawCurtis.patchCond" => some fun n => if ClenshawCurtis.patchCond n then 1 else 0
+  | "FejerFirst.nsum" => some FejerFirst.nsum
+  | "FejerFirst.jLen" => some FejerFirst.jLen
+  | "FejerFirst.jOff" => some FejerFirst.jOff
+  | "FejerFirst.bjLen" => some FejerFirst.bjLen
+  | "FejerSecond.nsum" => some FejerSecond.nsum
+  | "FejerSecond.jLen" => some FejerSecond.jLen
+  | "FejerSecond.jOff" => some FejerSecond.jOff
+  | "FejerSecond.bjLen" => some FejerSecond.bjLen
+  | "TanhSinh.kLen" => some TanhSinh.kLen
+  | "ExpSinh.kLen" => some ExpSinh.kLen
+  | "LogExpSinh.kLen" => some LogExpSinh.kLen
+  | "ExpExp.kLen" => some ExpExp.kLen
+  | "SingleTanh.kLen" => some SingleTanh.kLen
+  | "SingleExp.kLen" => some SingleExp.kLen
+  | "SingleArcSinhExp.kLen" => some SingleArcSinhExp.kLen
+  | _ => none
+
+open Gen.OneD in
+def nat2 : String → Option (Nat → Nat → Nat)
+  | "ClenshawCurtis.denom" => some ClenshawCurtis.denom
+  | "ClenshawCurtis.freq" => some ClenshawCurtis.freq
+  | "FejerFirst.denom" => some FejerFirst.denom
+  | "FejerFirst.freq" => some FejerFirst.freq
+  | "FejerSecond.denom" => some FejerSecond.denom
+  | "FejerSecond.freq" => some FejerSecond.freq
+  | _ => none
+
+open Gen.OneD in
+def int1 : String → Option (Nat → Int)
+  | "TanhSinh.kFirst" => some TanhSinh.kFirst
+  | "ExpSinh.kFirst" => some ExpSinh.kFirst
+  | "LogExpSinh.kFirst" => some LogExpSinh.kFirst
+  | "ExpExp.kFirst" => some ExpExp.kFirst
+  | "SingleTanh.kFirst" => some SingleTanh.kFirst
+  | "SingleExp.kFirst" => some SingleExp.kFirst
+  | "SingleArcSinhExp.kFirst" => some SingleArcSinhExp.kFirst
+  | _ => none
 
 /-- Line-protocol handler of property C01: `C01.<op> args…` ↦ one answer line
-(`none` = malformed, answered `bad-op`). -/
+(`none` = malformed, answered `bad-op`).
+
+* `C01.make <Class> <npoints> [<param>] [<P> <W>]`  — constructor
+* `C01.make TrefethenGeneral <npoints> <base|-> <d> <P> <W>`, `… TrefethenStripGeneral <npoints> <base> <rho> <P> <W>`
+* `C01.fn <generated function> x [y]`, `C01.nat <generated bound> n [j]`, `C01.int <…kFirst> n` -/
 def handle : List String → Option String
+  | ["C01.make", cls, n] => do
+    let mk ← noArg cls
+    pure (showGrid (mk (← pInt n)))
+  | ["C01.make", "TrefethenCC", n, d] => do
+    pure (showGrid (TrefethenCC.make (← pInt n) (← pInt d)))
+  | ["C01.make", cls, n, h] => do
+    let mk ← stepArg cls
+    pure (showGrid (mk (← pInt n) (← pFloat h)))
+  | "C01.make" :: "GaussLaguerre" :: n :: alpha :: rest => do
+    pure (showGrid (GaussLaguerre.make fnan (← pGauss rest) (← pInt n) (← pFloat alpha)))
+  | "C01.make" :: "TrefethenGC2" :: n :: d :: rest => do
+    pure (showGrid (TrefethenGC2.make (← pGauss rest) (← pInt n) (← pInt d)))
+  | "C01.make" :: "TrefethenStripGC2" :: n :: rho :: rest => do
+    pure (showGrid (TrefethenStripGC2.make (← pGauss rest) (← pInt n) (← pFloat rho)))
+  | "C01.make" :: "TrefethenGeneral" :: n :: base :: d :: rest => do
+    let g ← pGauss rest
+    let q ← if base = "-" then pure none else (baseRule g base).map some
+    pure (showGrid (TrefethenGeneral.make q (← pInt n) (← pInt d)))
+  | "C01.make" :: "TrefethenStripGeneral" :: n :: base :: rho :: rest => do
+    let g ← pGauss rest
+    let q ← baseRule g base
+    pure (showGrid (TrefethenStripGeneral.make q (← pInt n) (← pFloat rho)))
+  | "C01.make" :: cls :: n :: rest => do
+    let mk ← gaussArg cls
+    pure (showGrid (mk (← pGauss rest) (← pInt n)))
+  | ["C01.fn", f, x] => do
+    pure ("ok " ++ sFloat ((← fn1 f) (← pFloat x)))
+  | ["C01.fn", f, x, y] => do
+    pure ("ok " ++ sFloat ((← fn2 f) (← pFloat x) (← pFloat y)))
+  | ["C01.nat", f, n] => do
+    pure s!"ok {(← nat1 f) (← pNat n)}"
+  | ["C01.nat", f, n, j] => do
+    pure s!"ok {(← nat2 f) (← pNat n) (← pNat j)}"
+  | ["C01.int", f, n] => do
+    pure s!"ok {(← int1 f) (← pNat n)}"
   | _ => none
 
 end GridVerif.Driver.C01
